@@ -277,6 +277,23 @@ def histories(tier):
         return m2, dict(kw, external_data="new.data"), info
 
     hs.append(H("loaded_model_saved_to_other_existing_file", other_file_to_existing))
+    # the same worlds driven through the lower-level public entry points
+    by_name = {h.name: h for h in hs}
+    for base_name, entries in (
+        ("existing_destination", ("unload", "convert")), ("resave_in_place_multi_chunk", ("unload", "convert")),
+        ("resave_in_place_with_threshold", ("unload",)), ("external_source_from_other_file", ("unload", "convert")),
+        ("destination_is_symlink", ("unload", "convert")), ("lazy_tensor_raises_RuntimeError", ("unload", "convert")),
+        ("callback_raises_RuntimeError_at_2", ("unload", "convert")), ("existing_destination_two_workers", ("unload", "convert")),
+        ("sharded_with_neighbours", ("unload",)), ("sharded_conflict_on_second_shard", ("unload",)), ("sharded_single_shard_resave_in_place", ("unload",)),
+        ("destination_in_subdirectory", ("unload", "convert")),
+    ):
+        bh = by_name[base_name]
+        for entry in entries:
+            def via(d, bh=bh, entry=entry):
+                m, kw, info = bh.build(d)
+                return m, kw, dict(info, entry=entry)
+
+            hs.append(H(f"{base_name}/via_{entry}", via, natural_exc=bh.natural_exc))
     return hs
 
 
@@ -287,6 +304,26 @@ def _ext_tensors(model):
             if isinstance(v.const_value, ir.ExternalTensor):
                 out.append(v.const_value)
     return out
+
+
+def _call_entry(model, d, kw, info):
+    """The public entry point a history drives: ir.save (default), external_data.unload_from_model, or
+    external_data.convert_tensors_to_external on the model's initializer tensors."""
+    from onnx_ir import external_data as ed
+
+    entry = info.get("entry", "save")
+    base = os.path.join(d, info.get("save_dir", ""))
+    if entry == "save":
+        return ir.save(model, os.path.join(base, "m.onnx"), **kw)
+    kw = dict(kw)
+    rel = kw.pop("external_data")
+    if entry == "unload":
+        return ed.unload_from_model(model, base, rel, **kw)
+    if entry == "convert":
+        kw.pop("size_threshold_bytes", None)
+        tensors = [v.const_value for g in model.graphs() for v in g.initializers.values()]
+        return ed.convert_tensors_to_external(tensors, base, rel, **kw)
+    raise KeyError(entry)
 
 
 def _do_save(h, d, plan):
@@ -318,7 +355,7 @@ def _do_save(h, d, plan):
                 saved = (ed.threading, ed.concurrent)
                 ed.threading, ed.concurrent = th, cf
                 try:
-                    out = sc.run(lambda _s: ir.save(model, os.path.join(d, info.get("save_dir", ""), "m.onnx"), **kw))
+                    out = sc.run(lambda _s: _call_entry(model, d, kw, info))
                 finally:
                     ed.threading, ed.concurrent = saved
                 if sc.abort_reason is not None:
@@ -326,7 +363,7 @@ def _do_save(h, d, plan):
                 if out[0] == "exc":
                     raise out[1]
             else:
-                ir.save(model, os.path.join(d, info.get("save_dir", ""), "m.onnx"), **kw)
+                _call_entry(model, d, kw, info)
     except common.HarnessError:
         raise
     except BaseException as e:  # noqa: BLE001
@@ -373,7 +410,7 @@ def check_after_exception(h, d, r, plan_desc):
         except Exception as e:  # noqa: BLE001
             v.append(("external_tensor_unreadable_after_failed_save", f"{t.name}: {type(e).__name__}: {e}"[:100]))
     for val, c in r["consts"]:
-        if val.const_value is not c:
+        if r["info"].get("entry", "save") == "save" and val.const_value is not c:
             v.append(("model_holds_different_tensor_object_after_failed_save", val.name))
     return v
 
@@ -432,7 +469,7 @@ def run_history(h):
                 if rel not in replaced and not t.valid():
                     add("external_tensor_invalidated_although_file_not_replaced", t.name, {"mode": "success"})
             for val, c in r["consts"]:
-                if val.const_value is not c:
+                if r["info"].get("entry", "save") == "save" and val.const_value is not c:
                     add("model_holds_different_tensor_object_after_save", val.name, {"mode": "success"})
     finally:
         shutil.rmtree(d, ignore_errors=True)
